@@ -535,7 +535,11 @@ func c14CrashText(s *Session) string {
 
 // ---------------------------------------------------------------- (B) life cycle
 
-func c14Life(c *Ctx, cs c14Case, id string) {
+func c14Life(c *Ctx, cs c14Case, id string) { c14LifeTry(c, cs, id, 0) }
+
+// c14LifeTry: keys and POSTs travel on different channels; a disagreement about the ORDER of lifecycle events is an
+// observation about timing first: the whole session is run again (twice) before it is reported.
+func c14LifeTry(c *Ctx, cs c14Case, id string, attempt int) {
 	rep := c.Rep
 	r, err := c14StartRetried(c, cs, id)
 	if err != nil {
@@ -614,6 +618,12 @@ func c14Life(c *Ctx, cs c14Case, id string) {
 		got := c14EventsOf(c, scr)
 		want := c14EventsOf(c, []byte(mv.L[0].Str()))
 		if strings.Join(got, " ") != strings.Join(want, " ") || mv.L[1].I != 0 {
+			if attempt < 2 {
+				rep.Count("life:lifecycle_events_rerun")
+				r.close()
+				c14LifeTry(c, cs, fmt.Sprintf("%s_r%d", id, attempt+1), attempt+1)
+				return
+			}
 			rep.Disagreement(Disagreement{Kind: "corr", Name: "corr:C14.lifecycle_events", Input: cs, Impl: got, Expect: want})
 		}
 	}
